@@ -298,10 +298,11 @@ def main():
                       correspondence_ok=bool(t['ok']),
                       known_findings=known_lines,
                       exhaustive=bool(st.get('exhaustive', False))))
-        os.makedirs(os.path.join(ROOT, 'evidence'), exist_ok=True)
-        tmp = os.path.join(ROOT, 'evidence', f'.{a.prop}.{os.getpid()}.tmp')
+        evdir = os.environ.get('VERIF_EVIDENCE_DIR') or os.path.join(ROOT, 'evidence')     # (seeded-change trials write elsewhere)
+        os.makedirs(evdir, exist_ok=True)
+        tmp = os.path.join(evdir, f'.{a.prop}.{os.getpid()}.tmp')
         json.dump(ev, open(tmp, 'w'), indent=1, default=str)
-        os.replace(tmp, os.path.join(ROOT, 'evidence', f'{a.prop}.json'))
+        os.replace(tmp, os.path.join(evdir, f'{a.prop}.json'))
         for l in known_lines:
             print(l)
         if viol:
